@@ -19,7 +19,9 @@
     structure: undefined / null / nil list / nil map ↦ null, booleans, numbers with their literal, strings
     (sanitised), lists elementwise, maps as objects whose members are sorted by key (`json_keys_sorted`);
     `json_int_exact`: the literal of an int denotes exactly that int.
-  * Floats enter through the hypothesis `FloatsOk v`: every float is finite and its text (ES6 layout of the
+  * `json_roundtrip_total`: the same WITHOUT hypothesis — `FloatsOk` follows from the success of
+    `jsonMarshal` and the output shape of the soft-float formatter (Lemmas/F64Shape.lean, Props/C20b.lean).
+  * In `json_roundtrip` floats enter through the hypothesis `FloatsOk v`: every float is finite and its text (ES6 layout of the
     shortest digits, `F64.formatJS`) has the shape of a JSON number — a statement about the soft-float
     formatter that the correspondence validates and no theorem proves; `json_roundtrip_nofloat` is the
     unconditional theorem for values without floats.  That the float literal parses back to the same
@@ -27,6 +29,7 @@
 -/
 import SoyVerif.Lemmas.JsonString
 import SoyVerif.Lemmas.JsonValue
+import SoyVerif.Lemmas.F64Shape
 
 namespace SoyVerif.Props.C16b
 open SoyVerif SoyVerif.Model SoyVerif.Spec SoyVerif.Spec.Json SoyVerif.Lemmas.JsonString
@@ -108,6 +111,73 @@ theorem json_roundtrip_nofloat (v : Value) (out : Bytes) (h : jsonMarshal v = so
     jsonDecode out = some (toJ v) :=
   json_roundtrip v out h (floatsOk_of_free v hf)
 
+theorem jsonFloat_some_finite {f : F64} {lit : Bytes} (h : jsonFloat f = some lit) : f.isNaN = false ∧ f.isInf = false := by
+  unfold jsonFloat at h
+  cases hn : f.isNaN <;> cases hi : f.isInf <;> simp [hn, hi] at h ⊢
+
+mutual
+  /-- the float hypothesis is no hypothesis: a value that `json.Marshal` accepts has only finite floats
+      (where it looks), and every finite float is written as a JSON number
+      (`Lemmas.F64Shape.jsonFloat_finite`, the output shape of the soft-float formatter) -/
+  theorem floatsOk_of_marshal : (v : Value) → ∀ out, jsonMarshal v = some out → FloatsOk v
+    | .undefined, _, _ => by rw [FloatsOk] <;> first | trivial | (intros; contradiction)
+    | .null, _, _ => by rw [FloatsOk] <;> first | trivial | (intros; contradiction)
+    | .bool _, _, _ => by rw [FloatsOk] <;> first | trivial | (intros; contradiction)
+    | .int _, _, _ => by rw [FloatsOk] <;> first | trivial | (intros; contradiction)
+    | .str _, _, _ => by rw [FloatsOk] <;> first | trivial | (intros; contradiction)
+    | .float f, out, h => by
+        rw [jsonMarshal] at h
+        rw [FloatsOk]
+        obtain ⟨hn, hi⟩ := jsonFloat_some_finite h
+        exact SoyVerif.Lemmas.F64Shape.jsonFloat_finite f hn hi
+    | .list id xs, out, h => by
+        rw [jsonMarshal] at h
+        rw [FloatsOk]
+        by_cases hid : (id == 0) = true
+        · exact Or.inl (by simpa using hid)
+        · simp only [hid, if_false, Bool.false_eq_true] at h
+          split at h
+          · rename_i body hb; exact Or.inr (floatsOkL_of_marshal xs body hb)
+          · exact absurd h (by simp)
+    | .map id kvs, out, h => by
+        rw [jsonMarshal] at h
+        rw [FloatsOk]
+        by_cases hid : (id == 0) = true
+        · exact Or.inl (by simpa using hid)
+        · simp only [hid, if_false, Bool.false_eq_true] at h
+          split at h
+          · rename_i ms hm; exact Or.inr (floatsOkM_of_marshal kvs ms hm)
+          · exact absurd h (by simp)
+  theorem floatsOkL_of_marshal : (xs : List Value) → ∀ body, marshalElems xs = some body → FloatsOkL xs
+    | [], _, _ => by rw [FloatsOkL]; trivial
+    | [x], body, h => by
+        rw [marshalElems] at h
+        rw [FloatsOkL, FloatsOkL]; exact ⟨floatsOk_of_marshal x body h, trivial⟩
+    | x :: y :: r, body, h => by
+        rw [marshalElems] at h
+        rw [FloatsOkL]
+        split at h
+        · rename_i a b ha hb
+          exact ⟨floatsOk_of_marshal x a ha, floatsOkL_of_marshal (y :: r) b hb⟩
+        · exact absurd h (by simp)
+  theorem floatsOkM_of_marshal : (kvs : List (Bytes × Value)) → ∀ ms, marshalMembers kvs = some ms → FloatsOkM kvs
+    | [], _, _ => by rw [FloatsOkM]; trivial
+    | (k, v) :: r, ms, h => by
+        rw [marshalMembers] at h
+        rw [FloatsOkM]
+        split at h
+        · rename_i a ms' ha hm
+          exact ⟨floatsOk_of_marshal v a ha, floatsOkM_of_marshal r ms' hm⟩
+        · exact absurd h (by simp)
+end
+
+/-- C16, the json directive, WITHOUT hypothesis: whenever `json.Marshal` produces text for a Soy value
+    (it fails exactly on a NaN or an infinity it meets), the text is JSON (RFC 8259) and denotes the same
+    structure — floats included -/
+theorem json_roundtrip_total (v : Value) (out : Bytes) (h : jsonMarshal v = some out) :
+    jsonDecode out = some (toJ v) :=
+  json_roundtrip v out h (floatsOk_of_marshal v out h)
+
 /-- ints exactly: the number literal written for an int denotes that int -/
 theorem json_int_exact (i : Int64) : toJ (.int i) = .num (F64.intDigits i.toInt) ∧ numInt (F64.intDigits i.toInt) = some i.toInt := by
   refine ⟨by rw [toJ], numInt_intDigits _⟩
@@ -186,6 +256,8 @@ theorem exF_ok : FloatsOk exF := by
 example : jsonMarshal exF = some [91, 49, 46, 53, 44, 49, 101, 43, 50, 50, 44, 45, 48, 44, 55, 93] := by decide +kernel  -- [1.5,1e+22,-0,7]
 example : jsonDecode [91, 49, 46, 53, 44, 49, 101, 43, 50, 50, 44, 45, 48, 44, 55, 93] = some (toJ exF) :=
   json_roundtrip exF _ (by decide +kernel) exF_ok
+example : jsonDecode [91, 49, 46, 53, 44, 49, 101, 43, 50, 50, 44, 45, 48, 44, 55, 93] = some (toJ exF) :=
+  json_roundtrip_total exF _ (by decide +kernel)
 example : jsonMarshal (.list 3 [.float ⟨0x7ff8000000000001⟩]) = none := by decide +kernel
 
 end SoyVerif.Props.C16b
